@@ -142,3 +142,94 @@ Proof.
   f_equal. rewrite map_map. apply map_ext_in. intros s Hs. apply norm_sample_idem.
   rewrite forallb_forall in H. apply H, Hs.
 Qed.
+
+(* ---------- normalisation preserves validity and the NumUnit contract ---------- *)
+Lemma num_pairs_fst_in vs us v u : In (v, u) (num_pairs vs us) -> In v vs.
+Proof.
+  revert us. induction vs as [|x r IH]; intros us H; [destruct H|]. cbn [num_pairs] in H.
+  destruct H as [E|H]; [inversion E; now left|right; eapply IH; eauto].
+Qed.
+
+Lemma Kof_values_in units e v : In v (map fst (Kof units e)) -> In v (snd e).
+Proof.
+  intros H. apply in_map_iff in H as ([v' u] & <- & H). unfold Kof in H. apply filter_In in H as [H _].
+  eapply num_pairs_fst_in; eauto.
+Qed.
+
+Lemma norm_strlabels_sorted l : keys_sorted l = true -> keys_sorted (norm_strlabels l) = true.
+Proof. intros H. rewrite norm_strlabels_flat. apply (keys_sorted_flat (fun e => filter nonempty (snd e))), H. Qed.
+
+Lemma sample_valid_norm nst locids s :
+  sample_valid nst locids s = true -> sample_valid nst locids (norm_sample s) = true.
+Proof.
+  unfold sample_valid. intros H. repeat (apply andb_true_iff in H as [H ?]).
+  rewrite norm_sample_shape. cbn [s_val s_loc s_label s_numlabel s_numunit].
+  match goal with H0 : keys_sorted (s_label s) = true |- _ => rename H0 into K1 end.
+  match goal with H0 : keys_sorted (s_numlabel s) = true |- _ => rename H0 into K2 end.
+  match goal with H0 : forallb (fun e => forallb S_Codec.is_i64 (snd e)) (s_numlabel s) = true |- _ => rename H0 into NV end.
+  repeat (apply andb_true_iff; split); try assumption.
+  - apply norm_strlabels_sorted, K1.
+  - apply (keys_sorted_flat (fun e => map fst (Kof (s_numunit s) e))), K2.
+  - rewrite UKp_flat. apply (keys_sorted_flat (uentry (s_numunit s))), K2.
+  - apply forallb_forall. intros [k vs] Hk. cbn [snd]. apply forallb_forall. intros v Hv.
+    unfold NK in Hk. apply in_flat_map in Hk as (e & He & Hin).
+    destruct (map fst (Kof (s_numunit s) e)) as [|n0 nr] eqn:EM; cbn [opt_entry] in Hin; [destruct Hin|].
+    destruct Hin as [E|[]]. inversion E; subst k vs. rewrite <- EM in Hv.
+    apply Kof_values_in in Hv. rewrite forallb_forall in NV. specialize (NV e He). rewrite forallb_forall in NV. apply NV, Hv.
+Qed.
+
+Lemma valid_normalize p : valid_b p = true -> valid_b (normalize p) = true.
+Proof.
+  unfold valid_b. cbn zeta. intros H.
+  unfold normalize at 1 2 3 4 5 6 7 8 9 10 11 12 13 14 15.
+  cbn [p_sampletype p_defaultsampletype p_sample p_mapping p_location p_function p_comments p_docurl p_dropframes
+       p_keepframes p_timenanos p_durationnanos p_periodtype p_period].
+  repeat (apply andb_true_iff in H as [H ?]).
+  repeat (apply andb_true_iff; split); try assumption.
+  - rewrite map_length. exact H.
+  - match goal with H0 : forallb (sample_valid _ _) (p_sample p) = true |- _ => rename H0 into VS end.
+    rewrite forallb_forall in *. intros s Hs. apply in_map_iff in Hs as (s0 & <- & Hs0).
+    apply sample_valid_norm, VS, Hs0.
+  - unfold normalize; cbn [p_timenanos]. unfold S_Codec.is_i64 in *. lia.
+  - unfold normalize; cbn [p_timenanos]. unfold S_Codec.is_i64 in *. lia.
+  - unfold normalize; cbn [p_durationnanos]. unfold S_Codec.is_i64 in *. lia.
+  - unfold normalize; cbn [p_durationnanos]. unfold S_Codec.is_i64 in *. lia.
+  - unfold normalize; cbn [p_period]. unfold S_Codec.is_i64 in *. lia.
+  - unfold normalize; cbn [p_period]. unfold S_Codec.is_i64 in *. lia.
+Qed.
+
+Lemma units_wf_normalize p :
+  forallb (fun s => keys_sorted (s_numlabel s)) (p_sample p) = true -> units_wf_b (normalize p) = true.
+Proof.
+  intros KS. unfold units_wf_b, normalize. cbn [p_sample].
+  apply forallb_forall. intros s Hs. apply in_map_iff in Hs as (s0 & <- & Hs0).
+  rewrite forallb_forall in KS. specialize (KS s0 Hs0).
+  rewrite norm_sample_shape. cbn [s_numlabel s_numunit].
+  apply forallb_forall. intros [k vs] Hk. cbn zeta. cbn [fst snd].
+  unfold NK in Hk. apply in_flat_map in Hk as (e & He & Hin).
+  destruct (map fst (Kof (s_numunit s0) e)) as [|n0 nr] eqn:EM; cbn [opt_entry] in Hin; [destruct Hin|].
+  destruct Hin as [E|[]]. inversion E; subst k vs.
+  unfold units_of. cbn [s_numunit].
+  change (match assoc_s (fst e) (UKp (s_numunit s0) (s_numlabel s0)) with Some u => u | None => [] end)
+    with (ulook (UKp (s_numunit s0) (s_numlabel s0)) (fst e)).
+  assert (LK : ulook (UKp (s_numunit s0) (s_numlabel s0)) (fst e) = uentry (s_numunit s0) e).
+  { unfold ulook. rewrite UKp_flat. pose proof (flat_lookup (uentry (s_numunit s0)) (s_numlabel s0) e KS He) as FL.
+    destruct (assoc (fst e) _); exact FL. }
+  rewrite LK. unfold uentry. destruct (all_empty (Kof (s_numunit s0) e)); [reflexivity|].
+  apply orb_true_iff. right. apply Nat.eqb_eq. rewrite <- EM, !map_length. reflexivity.
+Qed.
+
+(* a written-and-parsed profile is a fixpoint of write-then-parse, hence re-serializes identically *)
+Lemma reparse_fixpoint p r' :
+  valid_b p = true -> pre_encode (normalize p) = Ok r' -> size_ok r' ->
+  parse_uncompressed (enc_profile r') = Ok (normalize p) /\ serialize (normalize p) = Ok (enc_profile r').
+Proof.
+  intros V H SZ.
+  assert (KS : forallb (fun s => keys_sorted (s_numlabel s)) (p_sample p) = true).
+  { unfold valid_b in V. cbn zeta in V. repeat (apply andb_true_iff in V as [V ?]).
+    match goal with H0 : forallb (sample_valid _ _) (p_sample p) = true |- _ => rename H0 into VS end.
+    rewrite forallb_forall in *. intros s Hs. specialize (VS s Hs). unfold sample_valid in VS.
+    repeat (apply andb_true_iff in VS as [VS ?]). assumption. }
+  destruct (write_parse_roundtrip_lemma (normalize p) r' (valid_normalize p V) (units_wf_normalize p KS) H SZ) as [S P].
+  rewrite (normalize_idem p KS) in P. split; assumption.
+Qed.
